@@ -1,4 +1,63 @@
-(* C13 — placeholder (extended below). *)
-From Astro Require Import Base Text FormatModel.
-Theorem C13_placeholder : parse_format_string [] = []. Proof. exact eq_refl. Qed.
-Print Assumptions C13_placeholder.
+(* C13 — RFC 3339 timestamps are read and written exactly.
+   RfcSpec: rfc_split recognises RFC 3339 section 5.6 `date-time` with upper-case T and Z (4-2-2 digits, T, 2:2:2 digits,
+   optional "." and one or more fraction digits, then Z or +/-hh:mm) and returns its parts; rfc_in_range says the
+   fields are in range (a valid calendar date - so year 0000, 30 February, month 13 are out -, hour <= 23, minute and
+   second <= 59, offset hour <= 23 and minute <= 59); rfc_denote gives the instant (nanoseconds since 0001-01-01T00:00Z,
+   fraction truncated to nine digits) and the offset in seconds the text denotes.  Model: ParseModel.dt_parse_rfc3339 and
+   dt_format_rfc3339 (= DateTime::format with the pattern yyyy-MM-ddTHH:mm:ss[.n..]XXX through FormatModel). *)
+From Astro Require Import Base Text CalSpec DateModel TimeModel ApiModel InstantSpec FormatModel ParseModel ClockProofs TextProofs RfcSpec RfcProofs.
+
+(* READ: every grammatical timestamp with in-range fields - ANY number of fraction digits - is accepted and the result
+   is exactly the denoted instant and offset, a valid DateTime *)
+Theorem C13_parse_accepts : forall s p, rfc_split s = Some p -> rfc_in_range p = true ->
+  exists v, dt_parse_rfc3339 s = Ok v /\ instant v = fst (rfc_denote p) /\ dt_off v = snd (rfc_denote p) /\
+            Inv_dt v /\ inst_in_range (local_instant v).
+Proof. exact rfc_parse_accepts. Qed.
+(* ... a grammatical timestamp with a field out of range is rejected with an error *)
+Theorem C13_parse_rejects : forall s p, rfc_split s = Some p -> rfc_in_range p = false -> exists e, dt_parse_rfc3339 s = Err e.
+Proof. exact rfc_parse_rejects. Qed.
+(* ... and no string whatsoever makes the parser panic (also C14) *)
+Theorem C13_parse_total : forall s, dt_parse_rfc3339 s <> Panic.
+Proof. intros s. exact (proj1 (rfc_parse_total s)). Qed.
+
+(* WRITE: for every valid DateTime whose local year is 0001..9999 and whose offset is a whole number of minutes, and
+   each of the five precisions (0, 2, 3, 6, 9 fraction digits), the output is a grammatical timestamp with in-range
+   fields and exactly prec fraction digits that denotes the value's offset and its instant truncated to that precision *)
+Theorem C13_format_denotes : forall v prec, Inv_dt v /\ inst_in_range (local_instant v) -> prec_ok prec -> dt_off v mod 60 = 0 ->
+  (let '(y, _, _) := days_to_date (local_instant v / D) in 1 <= y <= 9999) ->
+  exists out p, dt_format_rfc3339 v prec = Ok out /\ rfc_split out = Some p /\ rfc_in_range p = true /\
+    snd (rfc_denote p) = dt_off v /\
+    fst (rfc_denote p) = local_instant v / 10 ^ (9 - prec) * 10 ^ (9 - prec) - dt_off v * NANOS_PER_SEC /\
+    Z.of_nat (length (r_frac p)) = prec.
+Proof. exact rfc_format_denotes. Qed.
+(* READ after WRITE *)
+Theorem C13_roundtrip : forall v prec, Inv_dt v /\ inst_in_range (local_instant v) -> prec_ok prec -> dt_off v mod 60 = 0 ->
+  (let '(y, _, _) := days_to_date (local_instant v / D) in 1 <= y <= 9999) ->
+  exists out v', dt_format_rfc3339 v prec = Ok out /\ dt_parse_rfc3339 out = Ok v' /\ dt_off v' = dt_off v /\
+    instant v' = local_instant v / 10 ^ (9 - prec) * 10 ^ (9 - prec) - dt_off v * NANOS_PER_SEC /\
+    (Inv_dt v' /\ inst_in_range (local_instant v')).
+Proof. exact rfc_roundtrip. Qed.
+
+(* non-vacuity: "2022-05-02T15:30:20.1234567891+01:00" (ten fraction digits) is grammatical and in range; "…T24:00:00Z" and
+   "0000-01-01T00:00:00Z" are grammatical and out of range; a value meeting the write-side hypotheses *)
+Definition t_ (l : list nat) : text := map Z.of_nat l.
+Example C13_nonvacuous :
+  (exists p, rfc_split (t_ [50;48;50;50;45;48;53;45;48;50;84;49;53;58;51;48;58;50;48;46;49;50;51;52;53;54;55;56;57;49;43;48;49;58;48;48]%nat) = Some p
+             /\ rfc_in_range p = true /\ rfc_denote p = (63787098620123456789, 3600)) /\
+  (exists p, rfc_split (t_ [50;48;50;50;45;48;53;45;48;50;84;50;52;58;48;48;58;48;48;90]%nat) = Some p /\ rfc_in_range p = false) /\
+  (exists p, rfc_split (t_ [48;48;48;48;45;48;49;45;48;49;84;48;48;58;48;48;58;48;48;90]%nat) = Some p /\ rfc_in_range p = false) /\
+  (let v := mkDT 738276 52220123456789 (-1800) in
+   (Inv_dt v /\ inst_in_range (local_instant v)) /\ dt_off v mod 60 = 0 /\ days_to_date (local_instant v / D) = (2022, 5, 2)).
+Proof.
+  split; [eexists; split; [vm_compute; reflexivity | split; vm_compute; reflexivity]|].
+  split; [eexists; split; vm_compute; reflexivity|]. split; [eexists; split; vm_compute; reflexivity|].
+  cbv zeta. split; [|split; vm_compute; reflexivity].
+  unfold Inv_dt, inst_in_range, local_instant, instant, MIN_I, MAX_I, in_i32, off_ok. cbn [dt_days dt_nanos dt_off].
+  unfold NANOS_PER_DAY, NANOS_PER_SEC, SECS_PER_DAY, I32_MIN, I32_MAX. lia.
+Qed.
+
+Print Assumptions C13_parse_accepts.
+Print Assumptions C13_parse_rejects.
+Print Assumptions C13_parse_total.
+Print Assumptions C13_format_denotes.
+Print Assumptions C13_roundtrip.
